@@ -20,12 +20,11 @@ func (g *fastGenerator) genUnmarshalMethod() {
 	g.P(`if x == nil {`)
 	g.P(`return `, protoifacePkg.Ident("UnmarshalOutput"), ` {`)
 	g.P("NoUnkeyedLiterals: input.NoUnkeyedLiterals,")
-	g.P("Flags:               input.Flags,")
 	g.P("}, nil")
 	g.P("}")
 	// the recursion budget is carried through nested messages (see UnmarshalInputToOptions)
 	g.P(`if input.Depth <= 0 {`)
-	g.P(`return `, protoifacePkg.Ident("UnmarshalOutput"), "{NoUnkeyedLiterals: input.NoUnkeyedLiterals, Flags: input.Flags}, ", runtimePackage.Ident("ErrRecursionDepth"))
+	g.P(`return `, protoifacePkg.Ident("UnmarshalOutput"), "{NoUnkeyedLiterals: input.NoUnkeyedLiterals}, ", runtimePackage.Ident("ErrRecursionDepth"))
 	g.P(`}`)
 	g.P("options := ", runtimePackage.Ident("UnmarshalInputToOptions"), "(input)")
 	g.P("_ = options")
@@ -43,10 +42,10 @@ func (g *fastGenerator) genUnmarshalMethod() {
 	g.P(`fieldNum := int32(wire >> 3)`)
 	g.P(`wireType := int(wire & 0x7)`)
 	g.P(`if wireType == `, strconv.Itoa(int(protowire.EndGroupType)), ` {`)
-	g.P(`return `, protoifacePkg.Ident("UnmarshalOutput"), "{NoUnkeyedLiterals: input.NoUnkeyedLiterals, Flags: input.Flags},", g.Ident("fmt", "Errorf"), `("proto: `, g.message.GoIdent.GoName, `: wiretype end group for non-group")`)
+	g.P(`return `, protoifacePkg.Ident("UnmarshalOutput"), "{NoUnkeyedLiterals: input.NoUnkeyedLiterals},", g.Ident("fmt", "Errorf"), `("proto: `, g.message.GoIdent.GoName, `: wiretype end group for non-group")`)
 	g.P(`}`)
 	g.P(`if fieldNum <= 0 {`)
-	g.P(`return `, protoifacePkg.Ident("UnmarshalOutput"), "{NoUnkeyedLiterals: input.NoUnkeyedLiterals, Flags: input.Flags},", g.Ident("fmt", "Errorf"), `("proto: `, g.message.GoIdent.GoName, `: illegal tag %d (wire type %d)", fieldNum, wire)`)
+	g.P(`return `, protoifacePkg.Ident("UnmarshalOutput"), "{NoUnkeyedLiterals: input.NoUnkeyedLiterals},", g.Ident("fmt", "Errorf"), `("proto: `, g.message.GoIdent.GoName, `: illegal tag %d (wire type %d)", fieldNum, wire)`)
 	g.P(`}`)
 	g.P(`switch fieldNum {`)
 	for _, field := range g.message.Fields {
@@ -74,13 +73,13 @@ func (g *fastGenerator) genUnmarshalMethod() {
 		g.P(`iNdEx-=sizeOfWire`)
 		g.P(`skippy, err := `, runtimePackage.Ident("Skip"), `(dAtA[iNdEx:])`)
 		g.P(`if err != nil {`)
-		g.P(`return `, protoifacePkg.Ident("UnmarshalOutput"), "{NoUnkeyedLiterals: input.NoUnkeyedLiterals, Flags: input.Flags},", `err`)
+		g.P(`return `, protoifacePkg.Ident("UnmarshalOutput"), "{NoUnkeyedLiterals: input.NoUnkeyedLiterals},", `err`)
 		g.P(`}`)
 		g.P(`if (skippy < 0) || (iNdEx + skippy) < 0 {`)
-		g.P(`return `, protoifacePkg.Ident("UnmarshalOutput"), "{NoUnkeyedLiterals: input.NoUnkeyedLiterals, Flags: input.Flags},", runtimePackage.Ident("ErrInvalidLength"))
+		g.P(`return `, protoifacePkg.Ident("UnmarshalOutput"), "{NoUnkeyedLiterals: input.NoUnkeyedLiterals},", runtimePackage.Ident("ErrInvalidLength"))
 		g.P(`}`)
 		g.P(`if (iNdEx + skippy) > l {`)
-		g.P(`return `, protoifacePkg.Ident("UnmarshalOutput"), "{NoUnkeyedLiterals: input.NoUnkeyedLiterals, Flags: input.Flags},", g.Ident("io", `ErrUnexpectedEOF`))
+		g.P(`return `, protoifacePkg.Ident("UnmarshalOutput"), "{NoUnkeyedLiterals: input.NoUnkeyedLiterals},", g.Ident("io", `ErrUnexpectedEOF`))
 		g.P(`}`)
 		g.P(g.Ident(generator.ProtoPkg, "AppendExtension"), `(m, int32(fieldNum), dAtA[iNdEx:iNdEx+skippy])`)
 		g.P(`iNdEx += skippy`)
@@ -89,13 +88,13 @@ func (g *fastGenerator) genUnmarshalMethod() {
 	g.P(`iNdEx=preIndex`)
 	g.P(`skippy, err := `, runtimePackage.Ident("Skip"), `(dAtA[iNdEx:])`)
 	g.P(`if err != nil {`)
-	g.P(`return `, protoifacePkg.Ident("UnmarshalOutput"), "{NoUnkeyedLiterals: input.NoUnkeyedLiterals, Flags: input.Flags},", `err`)
+	g.P(`return `, protoifacePkg.Ident("UnmarshalOutput"), "{NoUnkeyedLiterals: input.NoUnkeyedLiterals},", `err`)
 	g.P(`}`)
 	g.P(`if (skippy < 0) || (iNdEx + skippy) < 0 {`)
-	g.P(`return `, protoifacePkg.Ident("UnmarshalOutput"), "{NoUnkeyedLiterals: input.NoUnkeyedLiterals, Flags: input.Flags},", runtimePackage.Ident("ErrInvalidLength"))
+	g.P(`return `, protoifacePkg.Ident("UnmarshalOutput"), "{NoUnkeyedLiterals: input.NoUnkeyedLiterals},", runtimePackage.Ident("ErrInvalidLength"))
 	g.P(`}`)
 	g.P(`if (iNdEx + skippy) > l {`)
-	g.P(`return `, protoifacePkg.Ident("UnmarshalOutput"), "{NoUnkeyedLiterals: input.NoUnkeyedLiterals, Flags: input.Flags},", g.Ident("io", `ErrUnexpectedEOF`))
+	g.P(`return `, protoifacePkg.Ident("UnmarshalOutput"), "{NoUnkeyedLiterals: input.NoUnkeyedLiterals},", g.Ident("io", `ErrUnexpectedEOF`))
 	g.P(`}`)
 	g.P("if !options.DiscardUnknown {")
 	g.P(`x.unknownFields = append(x.unknownFields, dAtA[iNdEx:iNdEx+skippy]...)`)
@@ -121,24 +120,24 @@ func (g *fastGenerator) genUnmarshalMethod() {
 			panic("missing required field")
 		}
 		g.P(`if hasFields[`, strconv.Itoa(fieldBit/64), `] & uint64(`, fmt.Sprintf("0x%08x", uint64(1)<<(fieldBit%64)), `) == 0 {`)
-		g.P(`return `, protoifacePkg.Ident("UnmarshalOutput"), "{NoUnkeyedLiterals: input.NoUnkeyedLiterals, Flags: input.Flags},", `new(`, g.Ident(generator.ProtoPkg, "RequiredNotSetError"), `)`)
+		g.P(`return `, protoifacePkg.Ident("UnmarshalOutput"), "{NoUnkeyedLiterals: input.NoUnkeyedLiterals},", `new(`, g.Ident(generator.ProtoPkg, "RequiredNotSetError"), `)`)
 		g.P(`}`)
 	}
 	g.P()
 	g.P(`if iNdEx > l {`)
-	g.P(`return `, protoifacePkg.Ident("UnmarshalOutput"), "{NoUnkeyedLiterals: input.NoUnkeyedLiterals, Flags: input.Flags}, ", g.Ident("io", `ErrUnexpectedEOF`))
+	g.P(`return `, protoifacePkg.Ident("UnmarshalOutput"), "{NoUnkeyedLiterals: input.NoUnkeyedLiterals}, ", g.Ident("io", `ErrUnexpectedEOF`))
 	g.P(`}`)
-	g.P(`return `, protoifacePkg.Ident("UnmarshalOutput"), "{NoUnkeyedLiterals: input.NoUnkeyedLiterals, Flags: input.Flags}, ", `nil`)
+	g.P(`return `, protoifacePkg.Ident("UnmarshalOutput"), "{NoUnkeyedLiterals: input.NoUnkeyedLiterals}, ", `nil`)
 	g.P(`}`)
 }
 
 func (g *fastGenerator) decodeVarint(varName string, typName string) {
 	g.P(`for shift := uint(0); ; shift += 7 {`)
 	g.P(`if shift >= 64 {`)
-	g.P(`return `, protoifacePkg.Ident("UnmarshalOutput"), "{NoUnkeyedLiterals: input.NoUnkeyedLiterals, Flags: input.Flags}, ", runtimePackage.Ident("ErrIntOverflow"))
+	g.P(`return `, protoifacePkg.Ident("UnmarshalOutput"), "{NoUnkeyedLiterals: input.NoUnkeyedLiterals}, ", runtimePackage.Ident("ErrIntOverflow"))
 	g.P(`}`)
 	g.P(`if iNdEx >= l {`)
-	g.P(`return `, protoifacePkg.Ident("UnmarshalOutput"), "{NoUnkeyedLiterals: input.NoUnkeyedLiterals, Flags: input.Flags}, ", g.Ident("io", `ErrUnexpectedEOF`))
+	g.P(`return `, protoifacePkg.Ident("UnmarshalOutput"), "{NoUnkeyedLiterals: input.NoUnkeyedLiterals}, ", g.Ident("io", `ErrUnexpectedEOF`))
 	g.P(`}`)
 	g.P(`b := dAtA[iNdEx]`)
 	g.P(`iNdEx++`)
@@ -165,14 +164,14 @@ func (g *fastGenerator) unmarshalField(field *protogen.Field, message *protogen.
 		g.P(`var packedLen int`)
 		g.decodeVarint("packedLen", "int")
 		g.P(`if packedLen < 0 {`)
-		g.P(`return `, protoifacePkg.Ident("UnmarshalOutput"), "{NoUnkeyedLiterals: input.NoUnkeyedLiterals, Flags: input.Flags},", runtimePackage.Ident("ErrInvalidLength"))
+		g.P(`return `, protoifacePkg.Ident("UnmarshalOutput"), "{NoUnkeyedLiterals: input.NoUnkeyedLiterals},", runtimePackage.Ident("ErrInvalidLength"))
 		g.P(`}`)
 		g.P(`postIndex := iNdEx + packedLen`)
 		g.P(`if postIndex < 0 {`)
-		g.P(`return `, protoifacePkg.Ident("UnmarshalOutput"), "{NoUnkeyedLiterals: input.NoUnkeyedLiterals, Flags: input.Flags},", runtimePackage.Ident("ErrInvalidLength"))
+		g.P(`return `, protoifacePkg.Ident("UnmarshalOutput"), "{NoUnkeyedLiterals: input.NoUnkeyedLiterals},", runtimePackage.Ident("ErrInvalidLength"))
 		g.P(`}`)
 		g.P(`if postIndex > l {`)
-		g.P(`return `, protoifacePkg.Ident("UnmarshalOutput"), "{NoUnkeyedLiterals: input.NoUnkeyedLiterals, Flags: input.Flags},", g.Ident("io", "ErrUnexpectedEOF"))
+		g.P(`return `, protoifacePkg.Ident("UnmarshalOutput"), "{NoUnkeyedLiterals: input.NoUnkeyedLiterals},", g.Ident("io", "ErrUnexpectedEOF"))
 		g.P(`}`)
 
 		g.P(`var elementCount int`)
@@ -203,11 +202,11 @@ func (g *fastGenerator) unmarshalField(field *protogen.Field, message *protogen.
 		g.fieldItem(field, fieldname, message, false)
 		g.P(`}`)
 		g.P(`} else {`)
-		g.P(`return `, protoifacePkg.Ident("UnmarshalOutput"), "{NoUnkeyedLiterals: input.NoUnkeyedLiterals, Flags: input.Flags},", g.Ident("fmt", "Errorf"), `("proto: wrong wireType = %d for field `, errFieldname, `", wireType)`)
+		g.P(`return `, protoifacePkg.Ident("UnmarshalOutput"), "{NoUnkeyedLiterals: input.NoUnkeyedLiterals},", g.Ident("fmt", "Errorf"), `("proto: wrong wireType = %d for field `, errFieldname, `", wireType)`)
 		g.P(`}`)
 	} else {
 		g.P(`if wireType != `, strconv.Itoa(int(wireType)), `{`)
-		g.P(`return `, protoifacePkg.Ident("UnmarshalOutput"), "{NoUnkeyedLiterals: input.NoUnkeyedLiterals, Flags: input.Flags},", g.Ident("fmt", "Errorf"), `("proto: wrong wireType = %d for field `, errFieldname, `", wireType)`)
+		g.P(`return `, protoifacePkg.Ident("UnmarshalOutput"), "{NoUnkeyedLiterals: input.NoUnkeyedLiterals},", g.Ident("fmt", "Errorf"), `("proto: wrong wireType = %d for field `, errFieldname, `", wireType)`)
 		g.P(`}`)
 		g.fieldItem(field, fieldname, message, proto3)
 	}
@@ -365,14 +364,14 @@ func (g *fastGenerator) fieldItem(field *protogen.Field, fieldname string, messa
 		g.decodeVarint("stringLen", "uint64")
 		g.P(`intStringLen := int(stringLen)`)
 		g.P(`if intStringLen < 0 {`)
-		g.P(`return `, protoifacePkg.Ident("UnmarshalOutput"), "{NoUnkeyedLiterals: input.NoUnkeyedLiterals, Flags: input.Flags},", runtimePackage.Ident("ErrInvalidLength"))
+		g.P(`return `, protoifacePkg.Ident("UnmarshalOutput"), "{NoUnkeyedLiterals: input.NoUnkeyedLiterals},", runtimePackage.Ident("ErrInvalidLength"))
 		g.P(`}`)
 		g.P(`postIndex := iNdEx + intStringLen`)
 		g.P(`if postIndex < 0 {`)
-		g.P(`return `, protoifacePkg.Ident("UnmarshalOutput"), "{NoUnkeyedLiterals: input.NoUnkeyedLiterals, Flags: input.Flags},", runtimePackage.Ident("ErrInvalidLength"))
+		g.P(`return `, protoifacePkg.Ident("UnmarshalOutput"), "{NoUnkeyedLiterals: input.NoUnkeyedLiterals},", runtimePackage.Ident("ErrInvalidLength"))
 		g.P(`}`)
 		g.P(`if postIndex > l {`)
-		g.P(`return `, protoifacePkg.Ident("UnmarshalOutput"), "{NoUnkeyedLiterals: input.NoUnkeyedLiterals, Flags: input.Flags},", g.Ident("io", `ErrUnexpectedEOF`))
+		g.P(`return `, protoifacePkg.Ident("UnmarshalOutput"), "{NoUnkeyedLiterals: input.NoUnkeyedLiterals},", g.Ident("io", `ErrUnexpectedEOF`))
 		g.P(`}`)
 		if oneof {
 			g.P(`x.`, fieldname, ` = &`, field.GoIdent, `{`, typ, `(dAtA[iNdEx:postIndex])}`)
@@ -391,14 +390,14 @@ func (g *fastGenerator) fieldItem(field *protogen.Field, fieldname string, messa
 		g.P(`var msglen int`)
 		g.decodeVarint("msglen", "int")
 		g.P(`if msglen < 0 {`)
-		g.P(`return `, protoifacePkg.Ident("UnmarshalOutput"), "{NoUnkeyedLiterals: input.NoUnkeyedLiterals, Flags: input.Flags},", runtimePackage.Ident("ErrInvalidLength"))
+		g.P(`return `, protoifacePkg.Ident("UnmarshalOutput"), "{NoUnkeyedLiterals: input.NoUnkeyedLiterals},", runtimePackage.Ident("ErrInvalidLength"))
 		g.P(`}`)
 		g.P(`postIndex := iNdEx + msglen`)
 		g.P(`if postIndex < 0 {`)
-		g.P(`return `, protoifacePkg.Ident("UnmarshalOutput"), "{NoUnkeyedLiterals: input.NoUnkeyedLiterals, Flags: input.Flags},", runtimePackage.Ident("ErrInvalidLength"))
+		g.P(`return `, protoifacePkg.Ident("UnmarshalOutput"), "{NoUnkeyedLiterals: input.NoUnkeyedLiterals},", runtimePackage.Ident("ErrInvalidLength"))
 		g.P(`}`)
 		g.P(`if postIndex > l {`)
-		g.P(`return `, protoifacePkg.Ident("UnmarshalOutput"), "{NoUnkeyedLiterals: input.NoUnkeyedLiterals, Flags: input.Flags},", g.Ident("io", `ErrUnexpectedEOF`))
+		g.P(`return `, protoifacePkg.Ident("UnmarshalOutput"), "{NoUnkeyedLiterals: input.NoUnkeyedLiterals},", g.Ident("io", `ErrUnexpectedEOF`))
 		g.P(`}`)
 		if oneof {
 			buf := `dAtA[iNdEx:postIndex]`
@@ -443,20 +442,20 @@ func (g *fastGenerator) fieldItem(field *protogen.Field, fieldname string, messa
 			g.P(`iNdEx = entryPreIndex`)
 			g.P(`skippy, err := `, runtimePackage.Ident("Skip"), `(dAtA[iNdEx:])`)
 			g.P(`if err != nil {`)
-			g.P(`return `, protoifacePkg.Ident("UnmarshalOutput"), "{NoUnkeyedLiterals: input.NoUnkeyedLiterals, Flags: input.Flags},", `err`)
+			g.P(`return `, protoifacePkg.Ident("UnmarshalOutput"), "{NoUnkeyedLiterals: input.NoUnkeyedLiterals},", `err`)
 			g.P(`}`)
 			g.P(`if (skippy < 0) || (iNdEx + skippy) < 0 {`)
-			g.P(`return `, protoifacePkg.Ident("UnmarshalOutput"), "{NoUnkeyedLiterals: input.NoUnkeyedLiterals, Flags: input.Flags},", runtimePackage.Ident("ErrInvalidLength"))
+			g.P(`return `, protoifacePkg.Ident("UnmarshalOutput"), "{NoUnkeyedLiterals: input.NoUnkeyedLiterals},", runtimePackage.Ident("ErrInvalidLength"))
 			g.P(`}`)
 			g.P(`if (iNdEx + skippy) > postIndex {`)
-			g.P(`return `, protoifacePkg.Ident("UnmarshalOutput"), "{NoUnkeyedLiterals: input.NoUnkeyedLiterals, Flags: input.Flags},", g.Ident("io", `ErrUnexpectedEOF`))
+			g.P(`return `, protoifacePkg.Ident("UnmarshalOutput"), "{NoUnkeyedLiterals: input.NoUnkeyedLiterals},", g.Ident("io", `ErrUnexpectedEOF`))
 			g.P(`}`)
 			g.P(`iNdEx += skippy`)
 			g.P(`}`)
 			// a key or value must end inside its entry: reading past the entry would make the
 			// enclosing loop decode the same bytes again
 			g.P(`if iNdEx > postIndex {`)
-			g.P(`return `, protoifacePkg.Ident("UnmarshalOutput"), "{NoUnkeyedLiterals: input.NoUnkeyedLiterals, Flags: input.Flags},", g.Ident("io", `ErrUnexpectedEOF`))
+			g.P(`return `, protoifacePkg.Ident("UnmarshalOutput"), "{NoUnkeyedLiterals: input.NoUnkeyedLiterals},", g.Ident("io", `ErrUnexpectedEOF`))
 			g.P(`}`)
 			g.P(`}`)
 			g.P(`x.`, fieldname, `[mapkey] = mapvalue`)
@@ -478,14 +477,14 @@ func (g *fastGenerator) fieldItem(field *protogen.Field, fieldname string, messa
 		g.P(`var byteLen int`)
 		g.decodeVarint("byteLen", "int")
 		g.P(`if byteLen < 0 {`)
-		g.P(`return `, protoifacePkg.Ident("UnmarshalOutput"), "{NoUnkeyedLiterals: input.NoUnkeyedLiterals, Flags: input.Flags},", runtimePackage.Ident("ErrInvalidLength"))
+		g.P(`return `, protoifacePkg.Ident("UnmarshalOutput"), "{NoUnkeyedLiterals: input.NoUnkeyedLiterals},", runtimePackage.Ident("ErrInvalidLength"))
 		g.P(`}`)
 		g.P(`postIndex := iNdEx + byteLen`)
 		g.P(`if postIndex < 0 {`)
-		g.P(`return `, protoifacePkg.Ident("UnmarshalOutput"), "{NoUnkeyedLiterals: input.NoUnkeyedLiterals, Flags: input.Flags},", runtimePackage.Ident("ErrInvalidLength"))
+		g.P(`return `, protoifacePkg.Ident("UnmarshalOutput"), "{NoUnkeyedLiterals: input.NoUnkeyedLiterals},", runtimePackage.Ident("ErrInvalidLength"))
 		g.P(`}`)
 		g.P(`if postIndex > l {`)
-		g.P(`return `, protoifacePkg.Ident("UnmarshalOutput"), "{NoUnkeyedLiterals: input.NoUnkeyedLiterals, Flags: input.Flags},", g.Ident("io", `ErrUnexpectedEOF`))
+		g.P(`return `, protoifacePkg.Ident("UnmarshalOutput"), "{NoUnkeyedLiterals: input.NoUnkeyedLiterals},", g.Ident("io", `ErrUnexpectedEOF`))
 		g.P(`}`)
 		if oneof {
 			g.P(`v := make([]byte, postIndex-iNdEx)`)
@@ -614,7 +613,7 @@ func (g *fastGenerator) noStarOrSliceType(field *protogen.Field) string {
 
 func (g *fastGenerator) decodeFixed64(varName string, typeName string) {
 	g.P(`if (iNdEx+8) > l {`)
-	g.P(`return `, protoifacePkg.Ident("UnmarshalOutput"), "{NoUnkeyedLiterals: input.NoUnkeyedLiterals, Flags: input.Flags},", g.Ident("io", `ErrUnexpectedEOF`))
+	g.P(`return `, protoifacePkg.Ident("UnmarshalOutput"), "{NoUnkeyedLiterals: input.NoUnkeyedLiterals},", g.Ident("io", `ErrUnexpectedEOF`))
 	g.P(`}`)
 	g.P(varName, ` = `, typeName, `(`, g.Ident("encoding/binary", "LittleEndian"), `.Uint64(dAtA[iNdEx:]))`)
 	g.P(`iNdEx += 8`)
@@ -622,7 +621,7 @@ func (g *fastGenerator) decodeFixed64(varName string, typeName string) {
 
 func (g *fastGenerator) decodeFixed32(varName string, typeName string) {
 	g.P(`if (iNdEx+4) > l {`)
-	g.P(`return `, protoifacePkg.Ident("UnmarshalOutput"), "{NoUnkeyedLiterals: input.NoUnkeyedLiterals, Flags: input.Flags},", g.Ident("io", `ErrUnexpectedEOF`))
+	g.P(`return `, protoifacePkg.Ident("UnmarshalOutput"), "{NoUnkeyedLiterals: input.NoUnkeyedLiterals},", g.Ident("io", `ErrUnexpectedEOF`))
 	g.P(`}`)
 	g.P(varName, ` = `, typeName, `(`, g.Ident("encoding/binary", "LittleEndian"), `.Uint32(dAtA[iNdEx:]))`)
 	g.P(`iNdEx += 4`)
@@ -631,7 +630,7 @@ func (g *fastGenerator) decodeFixed32(varName string, typeName string) {
 func (g *fastGenerator) decodeMessage(varName, buf string, message *protogen.Message) {
 
 	g.P("if err := options.Unmarshal(", buf, ", ", varName, "); err != nil {")
-	g.P(`return `, protoifacePkg.Ident("UnmarshalOutput"), "{NoUnkeyedLiterals: input.NoUnkeyedLiterals, Flags: input.Flags},", `err`)
+	g.P(`return `, protoifacePkg.Ident("UnmarshalOutput"), "{NoUnkeyedLiterals: input.NoUnkeyedLiterals},", `err`)
 	g.P(`}`)
 
 }
@@ -668,14 +667,14 @@ func (g *fastGenerator) unmarshalMapField(varName string, field *protogen.Field)
 		g.decodeVarint("stringLen"+varName, "uint64")
 		g.P(`intStringLen`, varName, ` := int(stringLen`, varName, `)`)
 		g.P(`if intStringLen`, varName, ` < 0 {`)
-		g.P(`return `, protoifacePkg.Ident("UnmarshalOutput"), "{NoUnkeyedLiterals: input.NoUnkeyedLiterals, Flags: input.Flags},", runtimePackage.Ident("ErrInvalidLength"))
+		g.P(`return `, protoifacePkg.Ident("UnmarshalOutput"), "{NoUnkeyedLiterals: input.NoUnkeyedLiterals},", runtimePackage.Ident("ErrInvalidLength"))
 		g.P(`}`)
 		g.P(`postStringIndex`, varName, ` := iNdEx + intStringLen`, varName)
 		g.P(`if postStringIndex`, varName, ` < 0 {`)
-		g.P(`return `, protoifacePkg.Ident("UnmarshalOutput"), "{NoUnkeyedLiterals: input.NoUnkeyedLiterals, Flags: input.Flags},", runtimePackage.Ident("ErrInvalidLength"))
+		g.P(`return `, protoifacePkg.Ident("UnmarshalOutput"), "{NoUnkeyedLiterals: input.NoUnkeyedLiterals},", runtimePackage.Ident("ErrInvalidLength"))
 		g.P(`}`)
 		g.P(`if postStringIndex`, varName, ` > postIndex {`)
-		g.P(`return `, protoifacePkg.Ident("UnmarshalOutput"), "{NoUnkeyedLiterals: input.NoUnkeyedLiterals, Flags: input.Flags},", g.Ident("io", `ErrUnexpectedEOF`))
+		g.P(`return `, protoifacePkg.Ident("UnmarshalOutput"), "{NoUnkeyedLiterals: input.NoUnkeyedLiterals},", g.Ident("io", `ErrUnexpectedEOF`))
 		g.P(`}`)
 		g.P(varName, ` = `, "string", `(dAtA[iNdEx:postStringIndex`, varName, `])`)
 		g.P(`iNdEx = postStringIndex`, varName)
@@ -683,14 +682,14 @@ func (g *fastGenerator) unmarshalMapField(varName string, field *protogen.Field)
 		g.P(`var mapmsglen int`)
 		g.decodeVarint("mapmsglen", "int")
 		g.P(`if mapmsglen < 0 {`)
-		g.P(`return `, protoifacePkg.Ident("UnmarshalOutput"), "{NoUnkeyedLiterals: input.NoUnkeyedLiterals, Flags: input.Flags},", runtimePackage.Ident("ErrInvalidLength"))
+		g.P(`return `, protoifacePkg.Ident("UnmarshalOutput"), "{NoUnkeyedLiterals: input.NoUnkeyedLiterals},", runtimePackage.Ident("ErrInvalidLength"))
 		g.P(`}`)
 		g.P(`postmsgIndex := iNdEx + mapmsglen`)
 		g.P(`if postmsgIndex < 0 {`)
-		g.P(`return `, protoifacePkg.Ident("UnmarshalOutput"), "{NoUnkeyedLiterals: input.NoUnkeyedLiterals, Flags: input.Flags},", runtimePackage.Ident("ErrInvalidLength"))
+		g.P(`return `, protoifacePkg.Ident("UnmarshalOutput"), "{NoUnkeyedLiterals: input.NoUnkeyedLiterals},", runtimePackage.Ident("ErrInvalidLength"))
 		g.P(`}`)
 		g.P(`if postmsgIndex > postIndex {`)
-		g.P(`return `, protoifacePkg.Ident("UnmarshalOutput"), "{NoUnkeyedLiterals: input.NoUnkeyedLiterals, Flags: input.Flags},", g.Ident("io", `ErrUnexpectedEOF`))
+		g.P(`return `, protoifacePkg.Ident("UnmarshalOutput"), "{NoUnkeyedLiterals: input.NoUnkeyedLiterals},", g.Ident("io", `ErrUnexpectedEOF`))
 		g.P(`}`)
 		buf := `dAtA[iNdEx:postmsgIndex]`
 		g.decodeMessage(varName, buf, field.Message)
@@ -700,14 +699,14 @@ func (g *fastGenerator) unmarshalMapField(varName string, field *protogen.Field)
 		g.decodeVarint("mapbyteLen", "uint64")
 		g.P(`intMapbyteLen := int(mapbyteLen)`)
 		g.P(`if intMapbyteLen < 0 {`)
-		g.P(`return `, protoifacePkg.Ident("UnmarshalOutput"), "{NoUnkeyedLiterals: input.NoUnkeyedLiterals, Flags: input.Flags},", runtimePackage.Ident("ErrInvalidLength"))
+		g.P(`return `, protoifacePkg.Ident("UnmarshalOutput"), "{NoUnkeyedLiterals: input.NoUnkeyedLiterals},", runtimePackage.Ident("ErrInvalidLength"))
 		g.P(`}`)
 		g.P(`postbytesIndex := iNdEx + intMapbyteLen`)
 		g.P(`if postbytesIndex < 0 {`)
-		g.P(`return `, protoifacePkg.Ident("UnmarshalOutput"), "{NoUnkeyedLiterals: input.NoUnkeyedLiterals, Flags: input.Flags},", runtimePackage.Ident("ErrInvalidLength"))
+		g.P(`return `, protoifacePkg.Ident("UnmarshalOutput"), "{NoUnkeyedLiterals: input.NoUnkeyedLiterals},", runtimePackage.Ident("ErrInvalidLength"))
 		g.P(`}`)
 		g.P(`if postbytesIndex > postIndex {`)
-		g.P(`return `, protoifacePkg.Ident("UnmarshalOutput"), "{NoUnkeyedLiterals: input.NoUnkeyedLiterals, Flags: input.Flags},", g.Ident("io", `ErrUnexpectedEOF`))
+		g.P(`return `, protoifacePkg.Ident("UnmarshalOutput"), "{NoUnkeyedLiterals: input.NoUnkeyedLiterals},", g.Ident("io", `ErrUnexpectedEOF`))
 		g.P(`}`)
 		g.P(varName, ` = make([]byte, mapbyteLen)`)
 		g.P(`copy(`, varName, `, dAtA[iNdEx:postbytesIndex])`)
